@@ -167,6 +167,8 @@ type c29World struct {
 	stored []fixture.Block
 	mem    []fixture.Rec
 	nWrite int
+	// queryIface overrides the interface argument of run()
+	queryIface string
 }
 
 func c29NewWorld(x *explore.Ctx, first bool) *c29World {
@@ -237,7 +239,11 @@ func (w *c29World) close() {
 
 // run executes the real engine; live adds the in-memory flows of the manager.
 func (w *c29World) run(qtype, cond string, live bool, later ...bool) (*results.Result, error) {
-	a := query.NewArgs(qtype, c29Iface)
+	iface := c29Iface
+	if w.queryIface != "" {
+		iface = w.queryIface
+	}
+	a := query.NewArgs(qtype, iface)
 	a.Condition = cond
 	a.First = "1"
 	if len(later) > 0 && later[0] {
@@ -509,6 +515,94 @@ func c29RunWithSpecs(x *explore.Ctx, scheds []string, specs []c29Spec, first boo
 	}
 }
 
+// C29.other: a live query that names an interface which is in the database but NOT captured at the
+// moment, while another interface is captured and holds flows in memory.
+const c29OtherIface = "eth1"
+
+var c29OtherBlock = fixture.Block{Iface: c29OtherIface, TS: c29T0 - 300, Recs: []fixture.Rec{
+	rec("10.3.0.1", "10.3.0.2", 8443, 6, cnt(11, 12, 1, 2)), rec("2001:db8:3::1", "2001:db8:3::2", 53, 17, cnt(5, 0, 1, 0))}}
+
+func c29OtherRun(x *explore.Ctx) {
+	scheds := []string{"a4 b6", "a4 R b6", "R a4 b6 c4"}
+	args := []string{c29OtherIface, c29OtherIface + "," + c29Iface, c29Iface}
+	sched := strings.Fields(scheds[x.Case%len(scheds)])
+	arg := args[(x.Case/len(scheds))%len(args)]
+	leak := mcBubble(func() {
+		w := c29NewWorld(x, false)
+		defer w.close()
+		if err := fixture.WriteBlock(w.dbPath, c29OtherBlock, encoders.EncoderTypeLZ4); err != nil {
+			explore.HarnessErrorf("C29.other: %v", err)
+		}
+		for pos := 0; pos <= len(sched); pos++ {
+			if x.Choose(2, fmt.Sprintf("live query at %d", pos)) == 1 {
+				w.queryIface = arg
+				res, err := w.run("sip,dip,dport,proto", "", true)
+				w.queryIface = ""
+				x.Transition()
+				where := fmt.Sprintf("live query on %q at position %d of %v (captured: %s with %d packet(s) in memory; stored: %d block(s) of %s, 1 of %s)", arg, pos, sched, c29Iface, len(w.mem), len(w.stored), c29Iface, c29OtherIface)
+				// reference: stored blocks of the named interfaces plus the in-memory flows of the named CAPTURED interface
+				var blocks []fixture.Block
+				var ifs []string
+				if strings.Contains(arg, c29OtherIface) {
+					blocks = append(blocks, c29OtherBlock)
+					ifs = append(ifs, c29OtherIface)
+				}
+				if strings.Contains(arg, c29Iface) {
+					blocks = append(blocks, w.stored...)
+					blocks = append(blocks, fixture.Block{Iface: c29Iface, TS: c29T0 + 300*int64(w.nWrite), Recs: w.mem})
+					ifs = append(ifs, c29Iface)
+				}
+				want := (&fixture.DB{Blocks: blocks}).Aggregate(fixture.QuerySpec{Attrs: []string{"sip", "dip", "dport", "proto"}, Iface: true, Ifaces: ifs, First: 1, Last: 1 << 60})
+				if len(w.mem) > 0 {
+					x.Nontrivial("%s %d %d", arg, len(w.mem), len(w.stored))
+				}
+				// the captured interface has no directory in the database before its first write-out: the recorded
+				// finding 'memory-only' (the interface argument is resolved against the database only) - as an error
+				// when it is the only interface named, as silently missing live rows next to another interface
+				_, serr := os.Stat(w.dbPath + "/" + c29Iface)
+				notInDB := serr != nil && strings.Contains(arg, c29Iface) && len(w.mem) > 0
+				if err != nil {
+					if len(want) == 0 {
+						continue // nothing to show: an error instead of an empty result is not judged (as in C29)
+					}
+					if notInDB {
+						x.Fail("live-query-error:memory-only", "%s fails: %v", where, err)
+						return
+					}
+					x.Fail("live-query-failed:other-interface", "%s fails: %v", where, err)
+					return
+				}
+				got, dup := fixture.RowsOf(res)
+				if dup != nil {
+					x.Fail("live-rows-not-grouped:other-interface", "%s: group %s returned twice", where, dup)
+					return
+				}
+				if d := fixture.DiffRows(got, want); d != "" {
+					if notInDB {
+						x.Fail("live-query-error:memory-only", "%s: the in-memory flows of %s are missing: %s", where, c29Iface, d)
+						return
+					}
+					x.Fail("live-rows:other-interface", "%s: %s", where, d)
+					return
+				}
+				x.Obs("%d rows", len(got))
+			}
+			if pos == len(sched) {
+				break
+			}
+			x.Transition()
+			if sched[pos] == "R" {
+				w.rotate()
+			} else {
+				w.packet(c29Pkt(sched[pos]))
+			}
+		}
+	})
+	if leak != "" && !x.Failed() {
+		x.Fail("goroutines-left-blocked", "goroutines remain blocked after Manager.Close: %s", leak)
+	}
+}
+
 func c29Setup(t string) {
 	mcSetup(t)
 	debug.SetGCPercent(-1) // the engine calls runtime.GC() itself several times per query
@@ -516,6 +610,14 @@ func c29Setup(t string) {
 }
 
 func init() {
+	register("C29.other", &explore.Scenario{
+		ID: "C29", Name: "live queries naming an interface that is stored but not captured", Level: "model_checking",
+		Rule:  "cases = schedule {a4 b6 | a4 R b6 | R a4 b6 c4} on the captured interface eth0 x interface argument {eth1 | eth1,eth0 | eth0}, where eth1 has one stored block and no capture; EVERY subset of positions carries a live query (sip,dip,dport,proto); rows must equal the stored blocks of the named interfaces plus the in-memory flows of the named captured interface - never flows of an interface that was not named. non-trivial = live queries answered while eth0 held flows in memory",
+		Cases: func(string) int { return 9 },
+		Bound: func(string) int { return 0 },
+		Run:   c29OtherRun, Setup: c29Setup, PanicSig: "panic",
+		Assumptions: []string{"as C29"},
+	})
 	register("C29.idle", &explore.Scenario{
 		ID: "C29", Name: "live queries while flows are idle: conversations whose stored orientation depends on the flow still being known", Level: "model_checking",
 		Rule:  "cases = schedules over the conversations NTP 123<->123 (n1 request / n2 reply) and TCP 40000->50000 (t1 SYN / t2, t3 later segments) with write-outs (R) between their packets {n1 R n2 | n1 R R n2 | n1 n2 R n2 R n1 | t1 R t2 t3 | t1 t2 R t3 R t2 | n1 t1 R n2 t2 (thorough 5 more)} x 2 query specs; EVERY subset of the schedule's positions carries a live query through the real QueryRunner with WithLiveData; after a closing write-out the database (raw query with time) must equal the database of the same schedule without any live query (differential oracle only: what is stored for these conversations depends on the history). non-trivial = live queries answered while flows were stored or in memory",
